@@ -547,7 +547,7 @@ impl Monitor for C08 {
          from_semifinite / Operations::new; re-index maps including non-injective, empty and mistyped ones; composable pairs for flatmap and flatmap_sources. Every result \
          is decoded by explicit loops (which re-checks the size invariant) and compared with list-of-lists semantics; both owning iterators are stepped and after every \
          next() both len() and size_hint() must equal the number of slices still to come. non-trivial = >=2 segments with >=1 non-empty, or a constructor decision at a \
-         boundary value; distinct = hash of the input lists. Also: accepted constructor payloads are decoded, every slice yielded by the owning iterator must carry the codomain of the values, flatmap_sources with finite-function values on the right and label values on the left, indexed_values on label arrays."
+         boundary value; distinct = hash of the input lists. Also: accepted constructor payloads are decoded, every slice yielded by the owning iterator must carry the codomain of the values, flatmap_sources with finite-function values on the right and label values on the left, indexed_values on label arrays. Round 8: 1/2000 of the operation cases use value arrays of 4097-9090 entries (lengths around one and two pages of 4096) in 1-6 segments."
     }
     fn corpus_len(&self) -> u64 {
         6
